@@ -10,7 +10,7 @@ from ..famrun import new_res
 
 ID = 'C10'
 LEVEL = 'model_checking'
-RULE = ('Part A (explicit-state search over call histories): for 12 configurations (incl. several start symbols, and TextSlice input over texts released after each call with the next text steered to the released address), every sequence of <= 3 (thorough 4) '
+RULE = ('Part A (explicit-state search over call histories): for 14 configurations (incl. several start symbols, and TextSlice input over texts released after each call with the next text steered to the released address), every sequence of <= 3 (thorough 4) '
         'operations from the per-configuration alphabet (parse ok / lexing error / syntax error / dedent error, lex consumed / '
         'abandoned / dont_ignore, scan consumed / abandoned, abandoned interactive session, other instances created) is executed '
         'on one instance; after every step the observation must equal that of the same operation on a fresh instance. '
@@ -61,6 +61,10 @@ SLICE_START = 12
 SLICE_PARTS = {'n5': ('\n' * 5 + '-' * 7, 'ab if cd\nef gh'), 'n1': ('\n' + '-' * 11, 'if xy\nzz if q q'), 'n0': ('-' * 12, 'pq rs\ntu if vw'),
                'n5bad': ('\n' * 5 + '-' * 7, 'ab if if 9\ncd gh')}
 
+PH_G = 'start: decl+\ndecl: _mods NAME ";"\n_mods: [PUB] [STATIC]\nPUB: "pub"\nSTATIC: "static"\nNAME: /[a-z]+/\n%ignore " "\n'
+VERB_G = 'start: (A | B)+\nA: /a  b/x\nB: /abc?/\n%ignore " "\n'
+VERB_OTHER = 'start: X+\nX: /a  b/\n'
+
 CONFIGS = {
     # the instance is built from a lark Grammar *object* that later instances of the same history share
     'earley-shared-grammar': (PRIO, dict(parser='earley', lexer='basic', grammar_object=True)),
@@ -77,6 +81,11 @@ CONFIGS = {
     # TextSlice input with start > 0 over texts that are built for the call and released afterwards (the next text is
     # steered to the address of the released one: object identity must not carry anything over)
     'lalr-slice': (SLICE_G, dict(parser='lalr')),
+    # an inlined rule made of optionals only, first in its parent: placeholder lists must not be shared between reductions
+    'lalr-placeholders': (PH_G, dict(parser='lalr')),
+    # a verbose regexp next to a terminal whose width lies between its true and its written width; the 'other' instance
+    # of this configuration contains the same regexp text *without* the x flag
+    'lalr-verbose': (VERB_G, dict(parser='lalr', lexer='basic')),
     'lalr-indenter': (INDENT_G.replace('"("', 'LPAR').replace('")"', 'RPAR') + 'LPAR: "("\nRPAR: ")"\n', dict(parser='lalr', postlex='MyIndenter')),
 }
 
@@ -100,6 +109,10 @@ def mk(cfg):
 def texts(cfg):
     if cfg == 'lalr-indenter':
         return {'ok': 'a\n  b\n  c\nd\n', 'ok2': '(a)\nb\n', 'bad-lex': 'a\n  !\n', 'bad-syntax': 'a a\n', 'bad-dedent': 'a\n    b\n  c\n', 'open': 'a\n  (b\n'}
+    if cfg == 'lalr-placeholders':
+        return {'ok': 'x; y;', 'ok2': 'pub x; static pub;', 'bad-lex': 'x; 9', 'bad-syntax': 'x x;', 'bad-dedent': None, 'open': None}
+    if cfg == 'lalr-verbose':
+        return {'ok': 'abab', 'ok2': 'abc ab', 'bad-lex': 'ab 9', 'bad-syntax': 'ab', 'bad-dedent': None, 'open': None}
     return {'ok': 'if ab cd', 'ok2': 'x if y', 'bad-lex': 'if 9', 'bad-syntax': 'if if', 'bad-dedent': None, 'open': None}
 
 
@@ -244,8 +257,8 @@ def op_run(p, cfg, op):
         return guarded(f)
     if kind == 'new':           # another instance in the same process
         def f():
-            q = mk(cfg) if arg == 'same' else Lark(OTHER, parser='lalr')
-            return canon_any(q.parse(T['ok'] if arg == 'same' else 'xx'))
+            q = mk(cfg) if arg == 'same' else Lark(VERB_OTHER if cfg == 'lalr-verbose' else OTHER, parser='lalr')
+            return canon_any(q.parse(T['ok'] if arg == 'same' else ('a  ba  b' if cfg == 'lalr-verbose' else 'xx')))
         return guarded(f)
     raise KeyError(op)
 
@@ -305,6 +318,61 @@ def part_a(cfg, depth, first_ops, res, only=None):
         del SliceTexts.alive[:]
     if len(res['samples']) < 1 and seqs:
         res['samples'].append({'config': cfg, 'history': [list(o) for o in seqs[len(seqs) // 2]], 'every_step_equal_to_fresh_instance': True})
+
+
+# --------------------------------------------------------------------------------------------------- part A0: creation order
+
+OTHERS = {'verbose-other': VERB_OTHER}      # besides every configuration of CONFIGS
+
+
+def first_observations(before, cfg):
+    """In THIS (fresh) process: create the `before` instance (if any) and use it once, then observe every operation of
+    cfg's alphabet on fresh instances of cfg."""
+    FULL_EXC[0] = True
+    SliceTexts.mode, SliceTexts.last_id = 'hold', None
+    if before:
+        if before in OTHERS:
+            q = Lark(OTHERS[before], parser='lalr')
+            try:
+                q.parse('a  ba  b')
+            except Exception:
+                pass
+        else:
+            q = mk(before)
+            op_run(q, before, alphabet(before)[0])
+    return [repr(op_run(mk(cfg), cfg, op)) for op in alphabet(cfg) if op[0] != 'new-shared']
+
+
+def part_a0(cfg, res, only=None):
+    """'... unaffected by other instances created in the process': the first observations of cfg in a process where
+    another instance (every configuration, plus a grammar sharing a regexp text with lalr-verbose) was created and used
+    before must equal those of a process that only ever created cfg."""
+    import json
+    import subprocess
+    import sys
+
+    def child(before):
+        r = subprocess.run([sys.executable, '-m', 'lmc.props.c10', json.dumps([before, cfg])], capture_output=True, text=True, timeout=600)
+        if r.returncode != 0:
+            return ['child failed: ' + r.stderr[-300:]]
+        return json.loads(r.stdout)
+    base = child(None)
+    res['evals'] += 1
+    ops = [op for op in alphabet(cfg) if op[0] != 'new-shared']
+    for before in list(CONFIGS) + list(OTHERS):
+        if before == cfg or (only and only['created_before'] != before):
+            continue
+        got = child(before)
+        res['evals'] += 1
+        res['states'] += 1
+        res['traces'] += 1
+        res['transitions'] += len(got)
+        res['nontrivial'] += 1
+        if got != base:
+            i = next((i for i, (a, b) in enumerate(zip(got, base)) if a != b), 0)
+            res['viol'].append({'kind': 'depends-on-instances-created-before', 'cause': 'creation-order:' + cfg,
+                                'case': {'part': 'A0', 'config': cfg, 'created_before': before, 'operation': list(ops[i]) if i < len(ops) else None},
+                                'expected': base[i][:300] if i < len(base) else None, 'observed': got[i][:300] if i < len(got) else None})
 
 
 # --------------------------------------------------------------------------------------------------- part B: threads
@@ -398,6 +466,8 @@ def plan(tier, seed):
         ops = alphabet(cfg)
         for op in ops:      # split by first operation
             items.append(('A', cfg, depth, [op]))
+    for cfg in CONFIGS:
+        items.append(('A0', cfg))
     bound = 2 if tier == 'quick' else 3
     cap = 6000 if tier == 'quick' else 400000
     for name in SCENARIOS:
@@ -418,6 +488,8 @@ def work(item):
     res = new_res()
     if item[0] == 'A':
         part_a(item[1], item[2], [tuple(o) for o in item[3]], res)
+    elif item[0] == 'A0':
+        part_a0(item[1], res)
     else:
         part_b(item[1], item[2], item[3], res)
     res['counters'] = dict(res['counters'])
@@ -435,8 +507,17 @@ def finalize(extra, tier, seed):
 
 def replay(case):
     res = new_res()
-    if case['part'] == 'A':
+    if case['part'] == 'A0':
+        part_a0(case['config'], res, only=case)
+    elif case['part'] == 'A':
         part_a(case['config'], case['depth'], None, res, only=case)
     else:
         part_b(case['scenario'], case['bound'], 40, res, only=case)
     return [v for v in res['viol'] if v['kind'] != 'warm-operation-changes-shared-state' or case.get('schedule') is None]
+
+
+if __name__ == '__main__':
+    import json
+    import sys
+    before, cfg = json.loads(sys.argv[1])
+    print(json.dumps(first_observations(before, cfg)))
